@@ -369,6 +369,34 @@ v("C18", "b13-path-params-in-map-order", "break", "client/request.go", "\tfor _,
 v("C14", "b11-store-adds-instead-of-replacing", "break", "middleware/cache/cache.go", "\t\t\tif old := manager.get(key); old != nil && old.exp != 0 {\n\t\t\t\t_, size := heap.remove(old.heapidx)\n\t\t\t\tstoredBytes -= size\n\t\t\t}\n", "", "replaces-existing-entry", "reverts F34")
 v("C06", "b5-accept-header-folded-in-place", "break", "helpers.go", "lowerKey := utils.ToLower(utils.UnsafeString(key))", "lowerKey := utils.UnsafeString(utils.ToLowerBytes(key))", "private-buffer", "reverts F18")
 
+
+# ---------------------------------------------------------------- round 3: reverts of F40–F46 and variants of the rules added with them
+v("C10", "b9-ranges-not-reset", "break", "app.go", "\tapp.config.TrustProxyConfig.ranges = nil\n", "", "fresh-ranges", "reverts F40")
+v("C10", "n6-ranges-fresh-slice", "benign", "app.go", "\tapp.config.TrustProxyConfig.ranges = nil\n", "\tapp.config.TrustProxyConfig.ranges = make([]*net.IPNet, 0, len(app.config.TrustProxyConfig.Proxies))\n", why="a fresh slice instead of nil")
+v("C07", "b13-fs-compared-with-neq", "break", "ctx.go", "\tif !sameFS(sf.config.FS, cfg.FS) {", "\tif sf.config.FS != cfg.FS {", "interface-comparison-may-panic", "reverts F44")
+v("C01", "b10-root-use-needs-leading-slash", "break", "router.go", "\t\t\t// If r.root is '/', it matches everything: a detection path starts at '/' or is empty\n\t\t\t// (a path of slashes only, all of them trimmed as trailing slashes)\n\t\t\treturn true\n\t\t}\n", "\t\t\tif len(detectionPath) > 0 && detectionPath[0] == '/' {\n\t\t\t\treturn true\n\t\t\t}\n\t\t}\n", "matches-everything", "reverts F43")
+v("C14", "b12-invalidator-on-absent-entry", "break", "middleware/cache/cache.go", "if cfg.CacheInvalidator != nil && e.exp != 0 && cfg.CacheInvalidator(c) {", "if cfg.CacheInvalidator != nil && cfg.CacheInvalidator(c) {", "exp-written-only-for-present-entry", "reverts F41")
+v("C14", "n7-invalidator-nested-presence-test", "benign", "middleware/cache/cache.go", "\t\t\tif cfg.CacheInvalidator != nil && e.exp != 0 && cfg.CacheInvalidator(c) {\n\t\t\t\te.exp = ts - 1\n\t\t\t}\n", "\t\t\tif e.exp != 0 {\n\t\t\t\tif cfg.CacheInvalidator != nil && cfg.CacheInvalidator(c) {\n\t\t\t\t\te.exp = ts - 1\n\t\t\t\t}\n\t\t\t}\n", why="the presence test encloses the invalidator")
+v("C14", "b13-directive-case-sensitive", "break", "middleware/cache/cache.go", "strings.Contains(utils.ToLower(c.Get(fiber.HeaderCacheControl)), directive)", "strings.Contains(c.Get(fiber.HeaderCacheControl), directive)", "case-folded", "reverts F42")
+v("C14", "n8-directive-strings-tolower", "benign", "middleware/cache/cache.go", "strings.Contains(utils.ToLower(c.Get(fiber.HeaderCacheControl)), directive)", "strings.Contains(strings.ToLower(c.Get(fiber.HeaderCacheControl)), directive)", why="the standard library's fold")
+v("C05", "b10-adaptor-keeps-user-values", "break", "middleware/adaptor/adaptor.go", "\t\tfctx.ResetUserValues() // c.Locals of the request that used this context before\n", "", "resets-user", "reverts F45")
+v("C05", "n7-adaptor-resets-reordered", "benign", "middleware/adaptor/adaptor.go", "\t\tfctx.Response.Reset()\n\t\tfctx.Request.Reset()\n\t\tfctx.ResetUserValues() // c.Locals of the request that used this context before\n", "\t\tfctx.ResetUserValues()\n\t\tfctx.Request.Reset()\n\t\tfctx.Response.Reset()\n", why="the three resets in another order")
+v("C15", "b10-locals-key-shared-by-stores", "break", "middleware/session/store.go", "\tid, ok := c.Locals(sessionIDKey{store: s}).(string)", "\tid, ok := c.Locals(sessionIDKey{}).(string)", "per-store", "reverts F46 on the reading side", file2="middleware/session/store.go", find2="\t\tc.Locals(sessionIDKey{store: s}, id)", replace2="\t\tc.Locals(sessionIDKey{}, id)")
+v("C19", "n6-split-with-cut-keeps-separator", "benign", "middleware/cors/cors.go", "\t\t\tsd := subdomain{prefix: normalizedOrigin[:i+3], suffix: normalizedOrigin[i+3:]}\n", "\t\t\tscheme, host, _ := strings.Cut(normalizedOrigin, \"://\")\n\t\t\tsd := subdomain{prefix: scheme + \"://\", suffix: host}\n", why="the split written with strings.Cut, the separator put back")
+v("C19", "n7-preflight-headers-empty-test-first", "benign", "middleware/cors/cors.go", "\t\tif len(cfg.AllowHeaders) > 0 {\n\t\t\tc.Set(fiber.HeaderAccessControlAllowHeaders, strings.Join(cfg.AllowHeaders, \", \"))\n\t\t} else {\n\t\t\th := c.Get(fiber.HeaderAccessControlRequestHeaders)\n\t\t\tif h != \"\" {\n\t\t\t\tc.Set(fiber.HeaderAccessControlAllowHeaders, h)\n\t\t\t}\n\t\t}\n", "\t\tif len(cfg.AllowHeaders) == 0 {\n\t\t\tif h := c.Get(fiber.HeaderAccessControlRequestHeaders); h != \"\" {\n\t\t\t\tc.Set(fiber.HeaderAccessControlAllowHeaders, h)\n\t\t\t}\n\t\t} else {\n\t\t\tc.Set(fiber.HeaderAccessControlAllowHeaders, strings.Join(cfg.AllowHeaders, \", \"))\n\t\t}\n", why="the branches swapped")
+v("C20", "n4-names-start-as-copy-of-except", "benign", "middleware/encryptcookie/encryptcookie.go", "\t\tvar names []string\n\t\tc.Request().Header.VisitAllCookie(func(key, _ []byte) {\n\t\t\tkeyString := string(key)\n\t\t\tif !isDisabled(keyString, cfg.Except) && !isDisabled(keyString, names) {\n\t\t\t\tnames = append(names, keyString)\n\t\t\t}\n\t\t})\n\t\tfor _, name := range names {", "\t\tnames := append([]string(nil), cfg.Except...)\n\t\tc.Request().Header.VisitAllCookie(func(key, _ []byte) {\n\t\t\tkeyString := string(key)\n\t\t\tif !isDisabled(keyString, names) {\n\t\t\t\tnames = append(names, keyString)\n\t\t\t}\n\t\t})\n\t\tfor _, name := range names[len(cfg.Except):] {", why="the name list starts as a private copy of the excepted names")
+v("C08", "n5-known-prefix-else-branch", "benign", "mount.go", "\t\tif _, ok := app.mountFields.appList[prefix]; !ok {\n\t\t\tapp.mountFields.appList[prefix] = subApp\n\t\t}\n", "\t\tif _, known := app.mountFields.appList[prefix]; known {\n\t\t\t_ = known // registered at mount time\n\t\t} else {\n\t\t\tapp.mountFields.appList[prefix] = subApp\n\t\t}\n", why="the test turned around, the descent still follows")
+v("C09", "n6-params-match-in-local", "benign", "helpers.go", "\tif spec == \"*/*\" {\n\t\treturn paramsMatch(specParams, offerParams)\n\t}\n", "\tif spec == \"*/*\" {\n\t\tok := paramsMatch(specParams, offerParams)\n\t\treturn ok\n\t}\n", why="the result in a local variable")
+v("C16", "n6-same-origin-helper", "benign", "middleware/csrf/csrf.go", "\tif refererURL.Scheme == c.Scheme() && refererURL.Host == c.Host() {\n\t\treturn nil\n\t}\n", "\tif sameOriginAs(refererURL, c) {\n\t\treturn nil\n\t}\n", why="the same-origin comparison in a helper", file2="middleware/csrf/csrf.go", find2="// refererMatchesHost checks that the referer header matches the host header\n", replace2="func sameOriginAs(u *url.URL, c fiber.Ctx) bool {\n\treturn u.Scheme == c.Scheme() && u.Host == c.Host()\n}\n\n// refererMatchesHost checks that the referer header matches the host header\n")
+v("C16", "b10-origin-prefix-of-base-url", "break", "middleware/csrf/csrf.go", "\tif originURL.Scheme == c.Scheme() && originURL.Host == c.Host() {\n\t\treturn nil\n\t}\n", "\tif strings.HasPrefix(origin, originURL.Scheme+\"://\"+c.Host()) {\n\t\treturn nil\n\t}\n", "accepts-only-by-comparison", "prefix test on the Origin side")
+v("C06", "n5-path-original-by-conversion", "benign", "ctx.go", "\tc.pathOriginal = c.app.getString(fctx.URI().PathOriginal())", "\tc.pathOriginal = string(fctx.URI().PathOriginal())", why="a conversion copies")
+v("C03", "n6-star-value-in-local", "benign", "router.go", "\t\tif len(path) > 1 {\n\t\t\tparams[0] = path[1:]\n\t\t} else {", "\t\tif len(path) > 1 {\n\t\t\trest := path[1:]\n\t\t\tparams[0] = rest\n\t\t} else {", why="the value in a local variable")
+v("C04", "n7-group-path-trim-in-local", "benign", "helpers.go", "\treturn utils.TrimRight(prefix, '/') + path\n}", "\ttrimmed := utils.TrimRight(prefix, '/')\n\treturn trimmed + path\n}", why="the trimmed prefix in a local variable")
+v("C11", "n6-float-bits-from-type", "benign", "client/request.go", "strconv.FormatFloat(val.Float(), 'f', -1, 64)", "strconv.FormatFloat(val.Float(), 'f', -1, val.Type().Bits())", why="the bit size of the value's own type")
+v("C12", "n5-flash-prefilter-neq", "benign", "router.go", "\trawHeaders := ctx.Request().Header.RawHeaders()\n\tif len(rawHeaders) > 0 && bytes.Contains(rawHeaders, []byte(FlashCookieName)) {\n\t\tctx.Redirect().parseAndClearFlashMessages()\n\t}\n\n\t// Attempt to match a route and execute the chain\n\t_, err := app.next(ctx)", "\trawHeaders := ctx.Request().Header.RawHeaders()\n\tif len(rawHeaders) != 0 {\n\t\tif bytes.Contains(rawHeaders, []byte(FlashCookieName)) {\n\t\t\tctx.Redirect().parseAndClearFlashMessages()\n\t\t}\n\t}\n\n\t// Attempt to match a route and execute the chain\n\t_, err := app.next(ctx)", why="the two tests nested")
+v("C18", "n8-host-cut-bracket-aware", "benign", "client/cookiejar.go", "\tif h, _, err := net.SplitHostPort(utils.UnsafeString(host)); err == nil {\n\t\treturn utils.UnsafeBytes(h)\n\t}\n\treturn host\n}", "\tif i := bytes.LastIndexByte(host, ':'); i >= 0 && bytes.IndexByte(host[i:], ']') < 0 {\n\t\th := host[:i]\n\t\tif len(h) > 1 && h[0] == '[' {\n\t\t\th = h[1 : len(h)-1]\n\t\t}\n\t\treturn h\n\t}\n\tif len(host) > 1 && host[0] == '[' && host[len(host)-1] == ']' {\n\t\treturn host[1 : len(host)-1]\n\t}\n\treturn host\n}", why="a hand-written split that looks at the closing bracket (same results as net.SplitHostPort for host, host:port, [v6], [v6]:port)")
+v("C07", "n9-static-prefix-test-neq", "benign", "middleware/static/static.go", "\t\t\t\tif len(path) > 0 && path[0] != '/' {", "\t\t\t\tif len(path) != 0 && path[0] != '/' {", why="the length test written with !=")
+
 os.makedirs('/verif/selftest', exist_ok=True)
 for prop, vs in V.items():
     p = f'/verif/selftest/{prop.lower()}.json'
